@@ -15,7 +15,7 @@ VALUE = [
   F('Value::list', props=['C03', 'C17'], spec="        ensures self matches Value::List(l) ==> r == Ok::<Vec<Value>, Error>(l), !(self is List) ==> r is Err,  // @C03,C17 accessor.list"),
   F('Value::integer', props=['C03', 'C04', 'C17'],
     spec="""        ensures
-            self matches Value::Number(d) ==> (match dec_to_i64(d) { Some(n) => r == Ok::<i64, Error>(n), None => r is Err }),  // @C04,C17 integer.scale_independent
+            self matches Value::Number(d) ==> (match dec_to_i64(d) { Some(n) => r == Ok::<i64, Error>(n), None => r is Err }),  // @C03,C04,C17 integer.scale_independent
             !(self is Number) ==> r is Err,  // @C03,C17 accessor.integer""",
     ops=[
       Ins('entry', '', """        proof {
@@ -139,8 +139,9 @@ def _parts(repo_src, g):
             vals = [p for p in ps if p not in ('op', 'precedence')]
             opx = 'op' if has_op else ops_[0]
             req = ('    requires ' + ' || '.join('op == %s' % o for o in ops_) + ',\n') if has_op else ''
+            setter = mgr == 'infix' and any('SETTER' in a_ for r_ in rs for a_ in r_['args'])
             if mgr == 'infix':
-                ens = '    ensures agree_v(r, spec_infix(%s, vv(%s), vv(%s))),  // @C03,C04,C09 handler.%s' % (opx, vals[0], vals[1], h)
+                ens = '    ensures agree_v(r, spec_infix(%s, vv(%s), vv(%s))),  // @C03,C04,C09%s handler.%s' % (opx, vals[0], vals[1], ',C06' if setter else '', h)
             elif mgr == 'prefix':
                 ens = '    ensures agree_v(r, spec_prefix(%s, vv(%s))),  // @C03,C04 handler.%s' % (opx, vals[0], h)
             elif mgr == 'postfix':
@@ -151,7 +152,7 @@ def _parts(repo_src, g):
             for o in ops_:
                 hints += HINTS.get('%s:%s' % (mgr, o.strip('"')), [])
             attr = '#[verifier::loop_isolation(false)]' if any(o.strip('"') in ('AND', 'OR') for o in ops_) and mgr == 'prefix' else ''
-            (specs_fn if mgr == 'func' else specs_op).append(F(h, spec=req + ens, props=['C03', 'C04', 'C09'], ops=hints, attr=attr))
+            (specs_fn if mgr == 'func' else specs_op).append(F(h, spec=req + ens, props=['C03', 'C04', 'C09'] + (['C06'] if setter else []), ops=hints, attr=attr))
     return [
         Ghost(_t('hv_prelude.rs'), name='prelude'),
         Src('error.rs'),
